@@ -91,6 +91,25 @@ theorem src_rescale_eq_model (src dst x : Int) :
     rdbp_spec .py x (-(src - dst)) (by py_side) trivial (Or.inl rfl)]
   py_finish
 
+/-- `exp_on_interval_between_negative_one_quarter_and_0_excl(a)`, all Python ints -/
+theorem src_exp_on_interval_eq_model (a : Int) :
+    Agrees errRel (exp_on_interval_between_negative_one_quarter_and_0_excl (.py a))
+      (expOnIntervalBetweenNegativeOneQuarterAnd0Excl a) :=
+  (expint_sim .py a (Or.inl rfl) (Or.inl rfl)).agrees
+
+/-- `exp_on_negative_values(a)`, all Python ints (the seven `exp_barrel_shifter` stages included) -/
+theorem src_exp_on_negative_values_eq_model (a : Int) :
+    Agrees errRel (exp_on_negative_values (.py a)) (expOnNegativeValues a) := by
+  by_cases hf : -2147483648 ≤ a ∧ a ≤ 2147483647
+  · by_cases h0 : a ≤ 0
+    · exact expneg_in a hf h0
+    · unfold expOnNegativeValues chk32
+      py_exec [exp_on_negative_values, fits32_iff, errRel, if_pos, if_neg]
+      trivial
+  · unfold expOnNegativeValues chk32
+    py_exec [exp_on_negative_values, fits32_iff, errRel, if_pos, if_neg]
+    trivial
+
 /-- `multiply_by_quantized_multiplier(x, scale, shift)`, all Python ints with `shift ≤ 62` (right shift
     ≤ 31: the domain of the TFLite reference, see `C19.mbqm_eq`).  Beyond that the source and the hand
     model differ, see `src_multiply_by_quantized_multiplier_differs_witness`. -/
